@@ -2,7 +2,12 @@
 
 package rux
 
-import "sync/atomic"
+import (
+	"encoding/json"
+	"os"
+	"sync"
+	"sync/atomic"
+)
 
 // This file is only compiled with the build tag "verif". It exposes the abstract state of the
 // route cache to an external conformance harness and emits one event per cache operation at its
@@ -83,3 +88,65 @@ func (r *Router) VerifCache() *cachedRoutes { return r.cachedRoutes }
 
 // VerifParams returns the parameters stored in a cached route copy.
 func (r *Route) VerifParams() Params { return r.params }
+
+// ---- registration / dispatch events (trace source for validating the repository's own tests) --------------------
+// Enabled by the environment variable VERIF_TRACE=<file>: one JSON line per registered route and per dispatched request.
+
+var (
+	verifTraceMu   sync.Mutex
+	verifTraceFile *os.File
+	verifRouterIDs = map[*Router]int{}
+	verifRouteSeq  int
+)
+
+func init() {
+	if name := os.Getenv("VERIF_TRACE"); name != "" {
+		verifTraceFile, _ = os.OpenFile(name, os.O_APPEND|os.O_CREATE|os.O_WRONLY, 0o644)
+	}
+}
+
+func verifRouterID(r *Router) int {
+	id, ok := verifRouterIDs[r]
+	if !ok {
+		id = len(verifRouterIDs) + 1
+		verifRouterIDs[r] = id
+	}
+	return id
+}
+
+func verifEmit(r *Router, ev map[string]any) {
+	ev["router"] = verifRouterID(r)
+	ev["opts"] = map[string]any{"strict": r.strictLastSlash, "hmna": r.handleMethodNotAllowed, "hfb": r.handleFallbackRoute,
+		"icpt": r.interceptAll, "caching": r.enableCaching, "encoded": r.useEncodedPath}
+	bs, _ := json.Marshal(ev)
+	verifTraceFile.Write(append(bs, '\n'))
+}
+
+// verifRegistered: the route has its final path (group prefix applied) and is about to enter the index
+func verifRegistered(r *Router, route *Route) {
+	if verifTraceFile == nil {
+		return
+	}
+	verifTraceMu.Lock()
+	defer verifTraceMu.Unlock()
+	verifRouteSeq++
+	if route.Opts == nil {
+		route.Opts = map[string]any{}
+	}
+	route.Opts["_verif_rid"] = verifRouteSeq // survives the copy the route cache makes
+	verifEmit(r, map[string]any{"op": "reg", "rid": verifRouteSeq, "path": route.path, "methods": route.methods, "name": route.name})
+}
+
+// verifMatched: what QuickMatch resolved for the request
+func verifMatched(r *Router, method, path string, route *Route, params Params, allowed []string) {
+	if verifTraceFile == nil {
+		return
+	}
+	verifTraceMu.Lock()
+	defer verifTraceMu.Unlock()
+	rid := 0
+	if route != nil {
+		rid, _ = route.Opts["_verif_rid"].(int)
+	}
+	verifEmit(r, map[string]any{"op": "req", "method": method, "path": path, "rid": rid, "params": params, "allowed": allowed})
+}
